@@ -253,7 +253,7 @@ def parsePort (ts : List String) : Port :=
   let g := kvGet kv
   { kind := if g "kind" == "echo" then .echo else .dev, closed := g "closed" == "1",
     queue := if g "queue" == "-" then [] else (splitComma (g "queue")).filterMap parseNat?,
-    autoreset := g "autoreset" == "1", script := parseScript (g "script") }
+    autoreset := g "autoreset" == "1", script := parseScript (g "script"), budget := parseNat? (g "budget") }
 
 def LogEv.show : LogEv → String | .sent i => s!"s{i}" | .closed => "C"
 def ROut.show : ROut → String
